@@ -922,6 +922,75 @@ def r19_6(ctx, counts: dict[str, int]) -> RuleResult:
     return res
 
 
+def r19_7(ctx, counts: dict[str, int]) -> RuleResult:
+    """a lazily extended table of a process-wide singleton is iterated through a snapshot"""
+    model: Model = ctx.model
+    res = RuleResult(
+        'R19.7', 'SHARED-LAZY-TABLE-SNAPSHOT',
+        'A class with a module-level instance (X = C()) is process-wide state. If one of its '
+        'dict attributes is extended outside __init__ (a lazily filled table: a subscript store '
+        'in another method), a direct `for .. in self.D[.values()/.items()/.keys()]` in any of '
+        'its methods can meet an insertion made by another thread and raise "RuntimeError: '
+        'dictionary changed size during iteration", which is not an ElementPathError and depends '
+        'on the schedule. Such an iteration goes through a snapshot: list(..), tuple(..), '
+        'sorted(..) or .copy(). (\\p{IsNoBlock} requested cold from several threads.)')
+    n = 0
+    for mod in model.modules.values():
+        singletons = set()
+        for st in mod.tree.body:
+            if isinstance(st, (ast.Assign, ast.AnnAssign)) and isinstance(st.value, ast.Call) \
+                    and isinstance(st.value.func, ast.Name) and st.value.func.id in mod.classes:
+                singletons.add(st.value.func.id)
+        for cname in sorted(singletons):
+            cls = mod.classes[cname]
+            methods = [f for f in mod.functions.values() if f.cls is cls]
+            lazy: dict[str, list[str]] = {}
+            for f in methods:
+                if f.name in ('__init__', '__new__'):
+                    continue
+                for x in walk_local(f.node):
+                    tg = x.targets if isinstance(x, ast.Assign) else (
+                        [x.target] if isinstance(x, ast.AugAssign) else [])
+                    for t in tg:
+                        for y in ast.walk(t):
+                            if isinstance(y, ast.Subscript) and isinstance(y.ctx, ast.Store) \
+                                    and dotted(y.value).startswith('self.'):
+                                lazy.setdefault(dotted(y.value), []).append(f.name)
+            for f in methods:
+                if f.name in ('__init__', '__new__'):
+                    continue
+                for x in walk_local(f.node):
+                    its = []
+                    if isinstance(x, ast.For):
+                        its = [x.iter]
+                    elif isinstance(x, (ast.ListComp, ast.SetComp, ast.DictComp,
+                                        ast.GeneratorExp)):
+                        its = [g.iter for g in x.generators]
+                    for it in its:
+                        base = it
+                        if isinstance(it, ast.Call) and isinstance(it.func, ast.Attribute) \
+                                and it.func.attr in ('values', 'items', 'keys') and not it.args:
+                            base = it.func.value
+                        d = dotted(base)
+                        if d not in lazy:
+                            continue
+                        n += 1
+                        res.instances.append(f'{f.key}: L{x.lineno} iterates {stmt_text(it)[:40]} '
+                                             f'directly (extended by {sorted(set(lazy[d]))})')
+                        res.fail(finding('R19.7', f, x, f'direct iteration of {d}',
+                                         f'`{stmt_text(it)[:50]}` iterates the table {d} of the '
+                                         f'process-wide {cname} instance directly while '
+                                         f'{sorted(set(lazy[d]))[0]}() inserts into it lazily: '
+                                         f'another thread can insert during the loop '
+                                         f'(RuntimeError: dictionary changed size during '
+                                         f'iteration); iterate a snapshot'))
+            res.instances.append(f'{mod.name}:{cname}: lazily extended tables {sorted(lazy)}')
+            if lazy:
+                res.ok()
+    counts['lazy_table_direct_iterations'] = n
+    return res
+
+
 def run(ctx) -> dict:
     counts: dict[str, int] = {}
     results = [r19_1(ctx, counts), r19_2(ctx, counts), r19_3(ctx, counts), r19_4(ctx, counts)]
@@ -930,6 +999,7 @@ def run(ctx) -> dict:
     results.append(r13_4(ctx, counts))
     results.append(r19_5(ctx, counts))
     results.append(r19_6(ctx, counts))
+    results.append(r19_7(ctx, counts))
     return {
         'results': results,
         'counts': counts,
